@@ -33,7 +33,7 @@ ASSUMPTIONS = [
     "the Poisson method is outside the exactness claim: executed and recorded (deviation from the generating field), not judged",
 ]
 BUDGET = {"quick": {"soft_s": 150}, "thorough": {"soft_s": 900}}
-MIN_EVALUATIONS = {"quick": 2000, "thorough": 25000}
+MIN_EVALUATIONS = {"quick": 2000, "thorough": 12000}
 REQUIRED_COUNTERS = ["eval:not_constant_on_region", "eval:non_integer_multiple", "eval:unwrapped_input_changed", "eval:bf_not_constant_on_region"]
 
 FAMILIES = ["ramp", "quadratic", "bumps", "bandlimited", "sines"]
@@ -52,7 +52,7 @@ def plan(tier, seed):
     def size():
         return SIZES[int(rng.choice(4, p=[0.15, 0.35, 0.35, 0.15]))]
 
-    reps = 10 if quick else 120
+    reps = 10 if quick else 80
     for fam, mask, wrap in itertools.product(FAMILIES, MASKS, [True, False]):
         if wrap and mask == "none" and fam not in PERIODIC:
             continue  # the seam edges would be the only large differences: scaled to a trivial field
